@@ -88,6 +88,26 @@ def run_model(md, root_lib, cfgname, ops, timeout=60):
         raise RuntimeError("model failed: " + r.stderr[-2000:])
     return r.stdout
 
+def check_ids(md, exe, cfgname="back"):
+    """the library's state ids (read from the compiled harness) against the documented numbering (extracted doc_order)"""
+    ids = read_ids(exe)
+    r = subprocess.run([MODEL, "ids", cfg_parts(cfgname)[1]], input=msmgen.sx_mdef(md) + "\n", capture_output=True, text=True, timeout=30)
+    if r.returncode != 0:
+        raise RuntimeError("model ids failed: " + r.stderr[-1000:])
+    bad = []
+    for line in r.stdout.splitlines():
+        t = line.split()
+        if t and t[0] == "DOC":
+            order = list(map(int, t[2:]))
+            lib = ids.get(t[1])
+            if lib is None:
+                bad.append("machine %s has no id map" % t[1]); continue
+            for decl, libid in enumerate(lib):
+                if decl not in order or order.index(decl) != libid:
+                    bad.append("machine %s: state declared #%d has library id %d, documented order gives %s"
+                               % (t[1], decl, libid, order.index(decl) if decl in order else None))
+    return bad
+
 def split_ops(out, keep_comments=False):
     """split a trace into per-operation blocks, dropping harness comment lines"""
     blocks, cur = [], []
